@@ -26,7 +26,7 @@ SHARD = 25
 RULE = ("random op sequences (<=200 ops quick, <=2000 thorough) over EventQueue(events)/add_event/add_events/"
         "get_event/get_current_events(t)/len/empty/get_last_timestamp/to_json+from_json, generated while "
         "running the real queue so that t and re-pushed events are chosen from the pending set; timestamps "
-        "from a per-case range in {1,3,8,40,1000} (ties), all three event classes, occasional re-push of a "
+        "from a per-case range in {1,3,8,40,1000} (ties; 15% of the cases also negative), all three event classes, occasional re-push of a "
         "pending event object, get_event on an empty queue; non-trivial = distinct op sequence")
 ASSUMPTIONS = ["timestamps and precedences are integers (the three shipped event classes); CPython's heapq "
                "(C accelerator) behaves as Lib/heapq.py — re-implemented line by line and compared on every case, "
@@ -273,11 +273,13 @@ def gen_one(rng, maxlen, profile=None):
     if rng.random() < 0.5:
         n = min(n, max(8, maxlen // 4))
     nid = [0]
+    neg = rng.random() < 0.15          # some cases use negative timestamps as well
 
     def fresh(lo=0):
         vid = nid[0]
         nid[0] += 1
-        return [lo + rng.randint(0, span), rng.choice(KINDS), vid]
+        ts = lo + rng.randint(0, span) - (3 if neg and rng.random() < 0.3 else 0)
+        return [ts, rng.choice(KINDS), vid]
 
     init = None
     if rng.random() < 0.6:
